@@ -213,6 +213,8 @@ class ExecCall(ExecExpr):
                 x = args[0]
                 if isinstance(x, V) and x.alias is not None:
                     x = V(x.kind, x.t)
+                if isinstance(x, VRange) and name in ("list", "tuple"):
+                    x = self.range_to_seq(st, x)
                 yield st, x
         elif name == "set":
             if args:
@@ -253,6 +255,14 @@ class ExecCall(ExecExpr):
             yield st, w.fresh("str", "str")
         else:
             raise EngineError(f"builtin/external {name}")
+
+    def range_to_seq(self, st, r):
+        v = self.w.fresh(("seq", "int"), "rangelist")
+        k = z3.Int(self.w.fresh_name("k"))
+        n = z3.If(r.hi.t > r.lo.t, r.hi.t - r.lo.t, 0)
+        st.assume(SLen(v.t) == n)
+        st.assume(z3.ForAll([k], z3.Implies(z3.And(0 <= k, k < n), SAt(v.t, k) == r.lo.t + k), patterns=[SAt(v.t, k)]))
+        return v
 
     def hash_of(self, x):
         w = self.w
